@@ -52,6 +52,10 @@ CLAIMED = {
             "Every StudyDirection comparison in samplers, pruners, storages and study (24 sites, per-package floors) is a branch that fits one of the repository's idioms and is locally dual: two-armed sites and sibling callees match structurally with every order-sensitive token (comparison, min/max family, sort order, alternative, mirrored index, tolerance shift, sign) opposite between the arms; sign ternaries are negations and are multiplied in; one-armed sites are negations/mirrors; every order-sensitive pruner and value-reading sampler reaches a direction site. Decides that no site compares the wrong way or forgets its mirror; not run-level equality (numerics) nor tie strictness.",
             "Sites outside the anchors (terminator, importance, visualization) are census-only; unknown idioms give exit 2.",
             "DESIGN.md §3 C13"),
+    "C09": ("taint of storage ids by syntactic consumer (allowed sinks = id argument of storage methods), ambient-source census with tabled seeding idioms, rng-argument provenance through call sites, positive fixtures",
+            "In samplers, pruners, search-space, GP and multi-objective code every read of _trial_id/_study_id (35 sites) only flows into the id argument of a storage method (one finding: BaseGASampler.get_parent_population, listed as known); no module-level/unseeded randomness or ambient source is called outside two tabled seeding idioms; every function with an unseeded RandomState fallback is called with an rng derived from self._rng.rng; every sampler builds its RandomState from the seed argument; copy_study forwards every component. Decides these two confinement clauses (necessary for storage-independent reproducibility), not equality of whole runs.",
+            "Ids are only reachable through the attributes _trial_id/_study_id; provenance depth 4; set-iteration order effects are not decided (needs types).",
+            "DESIGN.md §3 C09"),
 }
 
 NOT_APPLICABLE = {
